@@ -4,7 +4,7 @@
    pipeline, order across batches, watermarks accepted by a Temporal receiver) are an executable monitor
    applied to every implementation trace and tied to the model by the correspondence. *)
 From Coq Require Import List ZArith Bool.
-From S2S Require Import Routing.Model Routing.Basic Routing.Delivery.
+From S2S Require Import Routing.Model Routing.Basic Routing.Delivery Routing.Inv.
 Import ListNotations.
 Open Scope Z_scope.
 
@@ -35,3 +35,31 @@ Print Assumptions C02_pids_strictly_increase.
 Theorem C02_step_refines_actions : forall fix1 x e, step fix1 x e = run_acts fix1 x (step_acts fix1 x e).
 Proof. exact step_is_run_acts. Qed.
 Print Assumptions C02_step_refines_actions.
+
+(* Nothing is lost or misrouted on the way to the owner's stream, in EVERY reachable state of every fault-free execution
+   (any interleaving of the critical sections): every task a receiver has read is either already in the sequence handed
+   to its OWNER's sender (the sender's id table followed by its channel) or still waiting in the receiver's pending group
+   for that owner - never anywhere else, never dropped. *)
+Theorem C02_received_tasks_reach_their_owner : forall ns nt l,
+  wf_run (init ns nt) l ->
+  let x := fst (run_acts true (init ns nt) l) in
+  forall sr r t, recv_at x sr r -> In t (r_rcv r) ->
+    (exists s, send_at x (t_owner t) s /\ In (te sr t) (L s)) \/ In t (pend r (t_owner t)).
+Proof.
+  intros ns nt l Hwf x sr r t Hr Ht. pose proof (inv_run l _ (inv_init ns nt) Hwf) as HI. apply (i_p _ HI sr r Hr t Ht).
+Qed.
+Print Assumptions C02_received_tasks_reach_their_owner.
+
+(* ... and in source order: in what has been handed to a target's sender, every entry of a source (a task or a
+   watermark) is preceded by all tasks of that source for this target with smaller ids - a watermark never overtakes a
+   task it covers, a task never overtakes an earlier one. *)
+Theorem C02_owner_stream_in_source_order : forall ns nt l,
+  wf_run (init ns nt) l ->
+  let x := fst (run_acts true (init ns nt) l) in
+  forall sr r T s, recv_at x sr r -> send_at x T s ->
+  forall l1 e l2, L s = l1 ++ e :: l2 -> e_src e = sr ->
+  forall t, In t (r_rcv r) -> t_owner t = T -> t_id t < e_val e -> In (te sr t) l1.
+Proof.
+  intros ns nt l Hwf x sr r T s Hr Hs. pose proof (inv_run l _ (inv_init ns nt) Hwf) as HI. apply (i_before _ HI sr r T s Hr Hs).
+Qed.
+Print Assumptions C02_owner_stream_in_source_order.
